@@ -52,6 +52,9 @@ enum Supply {
 enum HostForm {
     Name,
     NameWithPort,
+    /// a name the operating system could resolve by itself ("localhost"); it is a name all the
+    /// same and goes through the configured resolver
+    OsKnownNameWithPort,
     Ip,
     IpWithPort,
 }
@@ -75,7 +78,7 @@ fn acase_from(v: &Value) -> ACase {
     ACase {
         list: v["list"].as_array().unwrap().iter().map(|b| b.as_bool().unwrap()).collect(),
         supply: match v["supply"].as_str().unwrap() { "Preset" => Supply::Preset, "ResolverOk" => Supply::ResolverOk, "ResolverErr" => Supply::ResolverErr, _ => Supply::IpLiteral },
-        host: match v["host"].as_str().unwrap() { "Name" => HostForm::Name, "NameWithPort" => HostForm::NameWithPort, "Ip" => HostForm::Ip, _ => HostForm::IpWithPort },
+        host: match v["host"].as_str().unwrap() { "Name" => HostForm::Name, "NameWithPort" => HostForm::NameWithPort, "OsKnownNameWithPort" => HostForm::OsKnownNameWithPort, "Ip" => HostForm::Ip, _ => HostForm::IpWithPort },
         local_bind: v["local_bind"].as_bool().unwrap(),
         bare_tcp: v["bare_tcp"].as_bool().unwrap(),
     }
@@ -173,6 +176,7 @@ fn check_a(rt: &tokio::runtime::Runtime, c: &ACase) -> Option<(String, String)> 
     let host: String = match c.host {
         HostForm::Name => "name.test".into(),
         HostForm::NameWithPort => format!("name.test:{}", literal_target.port()),
+        HostForm::OsKnownNameWithPort => format!("localhost:{}", literal_target.port()),
         HostForm::Ip => format!("{}", literal_target.ip()),
         HostForm::IpWithPort => format!("{}:{}", literal_target.ip(), literal_target.port()),
     };
@@ -240,8 +244,9 @@ fn check_a(rt: &tokio::runtime::Runtime, c: &ACase) -> Option<(String, String)> 
         if calls.len() != 1 {
             return bad("resolver-not-called-once", format!("the resolver was called {} times", calls.len()));
         }
-        if calls[0].0 != "name.test" || calls[0].1 != literal_target.port() {
-            return bad("resolver-called-with-wrong-arguments", format!("the resolver was asked for {:?}, expected (\"name.test\", {})", calls[0], literal_target.port()));
+        let want_name = if c.host == HostForm::OsKnownNameWithPort { "localhost" } else { "name.test" };
+        if calls[0].0 != want_name || calls[0].1 != literal_target.port() {
+            return bad("resolver-called-with-wrong-arguments", format!("the resolver was asked for {:?}, expected ({:?}, {})", calls[0], want_name, literal_target.port()));
         }
     }
     match (&out, &expect_list) {
@@ -306,7 +311,7 @@ fn a_cases(max_len: usize) -> Vec<ACase> {
                 if matches!(supply, Supply::ResolverErr | Supply::IpLiteral) && len > 1 {
                     continue; // the list plays no role beyond its first entry
                 }
-                for host in [HostForm::Name, HostForm::NameWithPort, HostForm::Ip, HostForm::IpWithPort] {
+                for host in [HostForm::Name, HostForm::NameWithPort, HostForm::OsKnownNameWithPort, HostForm::Ip, HostForm::IpWithPort] {
                     for local_bind in [false, true] {
                         if local_bind && len > 2 {
                             continue;
